@@ -2,6 +2,7 @@ import TF.Proofs.MmrAcc
 import TF.Proofs.MmrAccBounded
 import TF.Proofs.MmrAccBatch
 import TF.Proofs.MmrAccVerify
+import TF.Proofs.GenBridgeMmrPeaks
 /-!
 # C11 — the MMR accumulator always commits to the current leaf list
 
@@ -219,5 +220,81 @@ set_option maxRecDepth 100000 in
     repeated index -/
 theorem verify_batch_update_bounded_check :
     (verifyAll 9 2 1 && verifyAll 6 3 2 && verifyAll 12 1 0 && verifyAll 12 0 2) = true := by decide +kernel
+
+/-! ## Regenerated-from-source bridge (tools/rs2lean_bt4.py, `TF/Gen/MmrPeaksLoops.lean`)
+
+`calculate_new_peaks_from_append` and `calculate_new_peaks_from_leaf_mutation` are regenerated from the text of
+`shared_basic.rs` on every run with the digest type opaque (`D`), `Tip5::hash_pair` the parameter `H` and `d0` the value
+read after a panic (the `_ok` twin is false there).  `outcome ok v = if ok then v else none` turns the pair
+(`_ok` flag, value) into the hand model's convention (`none` = panic).  Proofs: `TF/Proofs/GenBridgeMmrPeaks.lean`. -/
+section GenBridge
+open TF.GenBridge.MmrPeaks
+open TF.Gen.Loops (mmr_calculate_new_peaks_from_append mmr_calculate_new_peaks_from_append_ok
+  mmr_calculate_new_peaks_from_leaf_mutation mmr_calculate_new_peaks_from_leaf_mutation_ok)
+
+/-- regenerated `calculate_new_peaks_from_append` (`push`, the `while right_lineage_count != 0` loop with two
+    `pop().unwrap()`, `hash_pair`, `push`) = hand model, every `H`, every peak list (short ones panic), every leaf count
+    that can be incremented -/
+theorem gen_calculate_new_peaks_from_append_eq_model (d0 : D) (n : Nat) (ps : List D) (x : D) (h : n + 1 < 2 ^ 64) :
+    outcome (mmr_calculate_new_peaks_from_append_ok H d0 n ps x) (mmr_calculate_new_peaks_from_append H d0 n ps x)
+      = calculate_new_peaks_from_append H n ps x := gen_append_eq H d0 n ps x h
+/-- non-vacuity, with the carry chain of 3 = 0b11 (two merges) and on a peak list that is too short (panic) -/
+example : let H := fun a b : Nat => a * 10 + b
+    mmr_calculate_new_peaks_from_append H 0 3 [12, 3] 4 = some ([154], [3, 12]) ∧
+    mmr_calculate_new_peaks_from_append_ok H 0 3 [12, 3] 4 = true ∧
+    mmr_calculate_new_peaks_from_append_ok H 0 3 [3] 4 = false ∧
+    calculate_new_peaks_from_append H 3 [3] 4 = none := by decide +kernel
+
+/-- regenerated `calculate_new_peaks_from_leaf_mutation` (the `while acc_mt_index != 1` loop indexing the authentication
+    path, the final `calculated_peaks[peak_index] = acc_hash`) = hand model, every `H`, every input with `u64` counts -/
+theorem gen_calculate_new_peaks_from_leaf_mutation_eq_model (d0 : D) (ps : List D) (n : Nat) (x : D) (i : Nat)
+    (ap : List D) (hn : n < 2 ^ 64) (hap : ap.length < 2 ^ 64) :
+    outcome (mmr_calculate_new_peaks_from_leaf_mutation_ok H d0 ps n x i ap)
+        (mmr_calculate_new_peaks_from_leaf_mutation H d0 ps n x i ap)
+      = calculate_new_peaks_from_leaf_mutation H ps n x i ap := gen_leaf_mutation_eq H d0 ps n x i ap hn hap
+example : let H := fun a b : Nat => a * 10 + b
+    mmr_calculate_new_peaks_from_leaf_mutation H 0 [12, 3] 3 7 1 [1] = some [17, 3] ∧
+    mmr_calculate_new_peaks_from_leaf_mutation_ok H 0 [12, 3] 3 7 1 [1] = true ∧
+    mmr_calculate_new_peaks_from_leaf_mutation_ok H 0 [12, 3] 3 7 1 [] = false ∧
+    mmr_calculate_new_peaks_from_leaf_mutation_ok H 0 [12, 3] 3 7 3 [1] = false := by decide +kernel
+
+/-- **transfer**: `append_refines` and `mutate_leaf_refines` for the code as it is in the source now: on the from-scratch
+    peaks of `n` leaves the regenerated append does not panic, terminates within its fuel and returns the from-scratch
+    peaks of `n + 1` leaves; the regenerated mutation with a valid proof returns the from-scratch peaks of the updated
+    leaf list -/
+theorem gen_peaks_transfer (d0 : D) (f : Nat → D) (n : Nat) (hn : n + 1 < 2 ^ 64) :
+    (∃ ap, mmr_calculate_new_peaks_from_append_ok H d0 n (peaks H n f) (f n) = true ∧
+      mmr_calculate_new_peaks_from_append H d0 n (peaks H n f) (f n) = some (peaks H (n + 1) f, ap)) ∧
+    (∀ (x : D) (i : Nat) (ap : List D), i < n → authPath H n f i = some ap → ap.length < 2 ^ 64 →
+      mmr_calculate_new_peaks_from_leaf_mutation_ok H d0 (peaks H n f) n x i ap = true ∧
+      mmr_calculate_new_peaks_from_leaf_mutation H d0 (peaks H n f) n x i ap = some (peaks H n (update f i x))) := by
+  constructor
+  · obtain ⟨ap, hap⟩ := append_refines H n hn f
+    have hg := gen_calculate_new_peaks_from_append_eq_model H d0 n (peaks H n f) (f n) hn
+    unfold append at hap
+    simp only at hap
+    cases hc : calculate_new_peaks_from_append H n (peaks H n f) (f n) with
+    | none => rw [hc] at hap; cases hap
+    | some r =>
+      rw [hc] at hap hg
+      simp only [Option.map_some, Option.some.injEq, Prod.mk.injEq, Acc.mk.injEq] at hap
+      obtain ⟨h1, h2⟩ := outcome_eq_some hg
+      refine ⟨ap, h1, ?_⟩
+      rw [h2, ← hap.1.2, ← hap.2]
+  · intro x i ap hin hap hlen
+    have hm := mutate_leaf_refines H f x n i hin (by omega) ap hap
+    have hg := gen_calculate_new_peaks_from_leaf_mutation_eq_model H d0 (peaks H n f) n x i ap (by omega) hlen
+    unfold mutate_leaf at hm
+    simp only at hm
+    cases hc : calculate_new_peaks_from_leaf_mutation H (peaks H n f) n x i ap with
+    | none => rw [hc] at hm; cases hm
+    | some r =>
+      rw [hc] at hm hg
+      simp only [Option.map_some, Option.some.injEq, Acc.mk.injEq, true_and] at hm
+      obtain ⟨h1, h2⟩ := outcome_eq_some hg
+      exact ⟨h1, by rw [h2, hm]⟩
+example : (9223372036854775807 : Nat) + 1 < 2 ^ 64 := by decide
+
+end GenBridge
 
 end TF.C11
